@@ -6,6 +6,8 @@ A *selector tuple* has one entry per dimension of the array, in storage order:
 """
 from __future__ import annotations
 
+import numpy as np
+
 import itertools
 
 from svx.configs import NAMES, items_of
@@ -76,8 +78,9 @@ def build_key(sel, xd, dims, spelling):
             items = items[::-1]
         return (items[0] if len(items) == 1 else tuple(items)), subdims
     key = {}
+    listform = {"dictl_nd": "ndarray", "dictl_tup": "tuple", "dictl_it": "dictkeys"}.get(spelling)
     for l, s in zip(xd, sel):
-        k = l if spelling == "dictl" else dims[l].name
+        k = dims[l].name if spelling == "dictn" else l
         if s[0] == "item":
             key[k] = dims[l].items[s[1]]
         elif s[0] == "sub":
@@ -85,7 +88,9 @@ def build_key(sel, xd, dims, spelling):
             subdims[l] = sd
             key[k] = sd
         elif s[0] == "list":
-            key[k] = [dims[l].items[i] for i in s[1]]
+            its = [dims[l].items[i] for i in s[1]]
+            # several items of one dimension as a list, or as another iterable of items: an ndarray, a tuple, the keys of a dict
+            key[k] = its if listform is None else np.array(its) if listform == "ndarray" else tuple(its) if listform == "tuple" else dict.fromkeys(its).keys()
     return key, subdims
 
 
